@@ -36,11 +36,15 @@ func c07Prelude() string {
 	for _, u := range c07Universe {
 		sb.WriteString(u.name + " = " + u.src + "\n")
 	}
+	// a small map that used to hold a large array (stale internal slot), a shrunk large map, a slice of a large array
+	sb.WriteString("vmdel = {\"a\": 1, \"b\": [1, 2, 3, 4, 5, 6, 7, 8, 9]}; del(vmdel.b)\n")
+	sb.WriteString("vmshrunk = {1: 1, 2: 2, 3: 3, 4: 4, 5: 5}; del(vmshrunk[5])\n")
+	sb.WriteString("vaslice = [1, 2, 3, 4, 5, 6, 7, 8, 9][0:3]\n")
 	return sb.String()
 }
 
 func c07Names() []string {
-	names := []string{"vnamed"}
+	names := []string{"vnamed", "vmdel", "vmshrunk", "vaslice"}
 	for _, u := range c07Universe {
 		names = append(names, u.name)
 	}
